@@ -14,6 +14,7 @@ import (
 	"fmt"
 	"go/constant"
 	"go/token"
+	"go/types"
 	"sort"
 	"strings"
 
@@ -139,7 +140,19 @@ func sym(c *symCtx, v ssa.Value, sub Subst, d int) string {
 						return symField(c, w, fa.Field, sub, d+1)
 					}
 				}
-				return "field(" + sym(c, fa.X, sub, d+1) + "." + name + ")"
+				// a field of a by-value sub-struct is a field of the holder (fields regrouped into a nested struct)
+				base := fa.X
+				for {
+					inner, isF := base.(*ssa.FieldAddr)
+					if !isF {
+						break
+					}
+					if _, isS := derefType(inner.Type()).Underlying().(*types.Struct); !isS {
+						break
+					}
+					base = inner.X
+				}
+				return "field(" + sym(c, base, sub, d+1) + "." + name + ")"
 			}
 			return "load(" + sym(c, x.X, sub, d+1) + ")"
 		}
